@@ -542,13 +542,20 @@ func (c *wsConn) handleFrame(ctx context.Context, frame frame) {
 func (c *wsConn) closeInFlight() {
 	c.inflightLk.Lock()
 	for id, req := range c.inflight {
-		req.ready <- clientResponse{
+		select {
+		case req.ready <- clientResponse{
 			Jsonrpc: "2.0",
 			ID:      id,
 			Error: &JSONRPCError{
 				Message: "handler: websocket connection closed",
 				Code:    eTempWSError,
 			},
+		}:
+		default:
+			// the one-slot mailbox already holds the real response (delivered
+			// but not yet removed from inflight); blocking here while holding
+			// inflightLk would deadlock with the frame executor and a caller
+			// that is waiting for the main loop to take its cancel request
 		}
 	}
 	c.inflight = map[interface{}]clientRequest{}
